@@ -565,7 +565,7 @@ class Preempt:
     is explored are the interleavings of the Python-level steps.
     """
 
-    LINES = 12
+    LINES = 48
 
     def __init__(self, roots: tuple) -> None:
         self.roots = tuple(roots)
